@@ -1184,6 +1184,9 @@ impl<'c, T: Kind, U: Kind> Run<'c, T, U> {
                     v.push(Op::DeleteBatchFailing(e));
                 }
             }
+            if p == Prop::C04 || p == Prop::C08 {
+                v.push(Op::RestrictOtherMut(e));
+            }
             if p == Prop::C04 && e == 0 {
                 v.push(Op::DeleteNow(e));
                 v.push(Op::DeleteBatchFailing(e));
@@ -1659,6 +1662,22 @@ impl<T: Kind, U: Kind> Store<T, U> {
                 let joined: Vec<u32> = (&st).join().map(|c| c.observe()).collect();
                 if joined.len() != st.count() {
                     return Some(format!("next-frame: join yields {} items, count() says {}", joined.len(), st.count()));
+                }
+                drop(st);
+                // ... and the storage is cleared, looked at, and cleared once more (auxiliary state
+                // that went stale on the unwind path must not come back)
+                let mut st = r.w.write_storage::<T>();
+                for round in 0..2 {
+                    st.clear();
+                    let left: Vec<u32> = (&st).join().map(|c| c.observe()).collect();
+                    if !left.is_empty() || st.count() != 0 || !st.is_empty() {
+                        return Some(format!("next-frame: after clear() #{} the storage still yields {} items (count {})", round + 1, left.len(), st.count()));
+                    }
+                    for e in newcomers.iter().chain(r.ents.iter()) {
+                        if st.get(*e).map(|c| c.observe()).is_some() {
+                            return Some(format!("next-frame: after clear() #{} {:?} still has a component", round + 1, e));
+                        }
+                    }
                 }
                 None
             });
